@@ -554,3 +554,20 @@ def c20(ctx):
         shutil.rmtree(wd, ignore_errors=True)
     return P.finish(ctx, "exploration", cov, assumptions, 20)
 log = ck.log
+
+
+# replayers for the fuzz-based properties: the artifact is raw target input; it must pass under every target of the property
+def _fuzz_replayer(pid, targets):
+    def fn(ctx, path):
+        bad = False
+        for t in targets:
+            exe = ck.build_harness(t, "fuzz", src=os.path.join(VERIF, "fuzz", t + ".cc"))
+            base = os.path.basename(os.path.dirname(path))
+            if base.startswith("fz_") and base != t:
+                continue   # saved under replays/<pid>/<target>/: only that target understands the layout
+            if P.fuzz_replay_fn(exe)(path):
+                bad = True
+        return bad
+    REPLAYERS[pid] = fn
+_fuzz_replayer("C06", ["fz_token_raw", "fz_token_struct"])
+_fuzz_replayer("C07", ["fz_jwks_raw", "fz_jwks_shape"])
